@@ -155,6 +155,15 @@ func VerifMultiCorrelation() {
 			req.RegionAction = append(req.RegionAction, ra)
 		}
 	}
+	late := -1
+	if verifBool() {
+		// another caller gives up after the request was written, before the response is decoded:
+		// nothing is claimed for it, but every other caller still gets its own result and cells
+		late = verifInt(0, n-1)
+		verifAssume(late != dropped)
+		cancels[late]()
+		verifReach("gave-up-after-send")
+	}
 	mr := &pb.MultiResponse{}
 	var cells []byte
 	wantErr := make([]bool, n)
@@ -223,6 +232,10 @@ func VerifMultiCorrelation() {
 	for i, cl := range calls {
 		if i == dropped {
 			verifAssert(vResults(cl) == 0, "a call dropped from the request gets no result")
+			continue
+		}
+		if i == late {
+			verifAssert(vResults(cl) <= 1, "a caller that gave up gets at most one result")
 			continue
 		}
 		verifAssert(vResults(cl) == 1, "every caller of the multi gets exactly one result")
